@@ -5,7 +5,7 @@
 
 use crate::client::{self, ConnCfg};
 use crate::mon;
-use crate::refs::proto::{self, Profile};
+use crate::refs::proto::{self, ClientMsg, Profile};
 use crate::report::Report;
 use crate::rng::{fnv, Rng};
 use crate::server::{Duplex, TlsPolicy};
@@ -59,7 +59,7 @@ impl Case {
             neg_type: v["neg_type"].as_u64().unwrap_or(2) as u8,
             flags: v["flags"].as_u64().unwrap_or(0) as u8,
             value: v["value"].as_u64().unwrap_or(0) as u32,
-            class: "replay",
+            class: if v["class"] == "pre-secured-link" { "pre-secured-link" } else { "replay" },
         }
     }
     /// may the client go on after this reply?
@@ -76,6 +76,8 @@ pub struct Seen {
     pub decrypted_bytes: usize,
     pub nla_negotiate_seen: bool,
     pub decrypted_frames: Vec<String>,
+    /// requestedProtocols as it stands in the connection request the client actually wrote
+    pub wire_offered: Option<u32>,
 }
 
 pub fn run_case(c: &Case) -> Result<Seen, mon::PanicInfo> {
@@ -88,6 +90,9 @@ pub fn run_case(c: &Case) -> Result<Seen, mon::PanicInfo> {
     d.with(|s| {
         s.tls_identity = c.identity;
         s.tls_policy = if tls { TlsPolicy::Always } else { TlsPolicy::Never };
+        if c.class == "pre-secured-link" {
+            s.tls = Some(crate::tls::TlsServer::new(&crate::tls::identity(c.identity), false));
+        }
         let bytes = cc_frame.clone();
         s.frame_hook = Some(Box::new(move |k, _b| if k == "connection-confirm" { Some(bytes.clone()) } else { None }));
     });
@@ -107,7 +112,17 @@ pub fn run_case(c: &Case) -> Result<Seen, mon::PanicInfo> {
             client::connect_real(&cfg, d.clone()).map(|_| ()).map_err(|e| client::err_kind(&e))
         } else {
             let mut auth = Ntlm::new("DOM".into(), "user".into(), "password".into());
-            let t = tpkt::Client::new(Link::new(Stream::Raw(d.clone())));
+            // in the pre-secured class the application has already upgraded the link to TLS itself, without verification,
+            // before it hands it to x224::Client::connect with certificate checking requested
+            let link = if case.class == "pre-secured-link" {
+                match Link::new(Stream::Raw(d.clone())).start_ssl(false) {
+                    Ok(l) => l,
+                    Err(e) => return Err(format!("pre-securing the link failed: {}", client::err_kind(&e))),
+                }
+            } else {
+                Link::new(Stream::Raw(d.clone()))
+            };
+            let t = tpkt::Client::new(link);
             let (ra, bc) = (case.options & 1 != 0, case.options & 2 != 0);
             let r = if case.with_auth { x224::Client::connect(t, case.offered, case.check_certificate, Some(&mut auth), ra, bc) } else { x224::Client::connect(t, case.offered, case.check_certificate, None, ra, bc) };
             match r {
@@ -137,6 +152,10 @@ pub fn run_case(c: &Case) -> Result<Seen, mon::PanicInfo> {
             decrypted_bytes: s.plain_in.len().saturating_sub(if s.tls.is_some() { cr_len } else { 0 }),
             nla_negotiate_seen: s.nla_log.negotiate.is_some(),
             decrypted_frames: dec_frames,
+            wire_offered: match s.events.first().map(|e| &e.msg) {
+                Some(ClientMsg::ConnectionRequest { protocols, has_neg, .. }) => Some(if *has_neg { *protocols } else { 0 }),
+                _ => None,
+            },
         }
     });
     Ok(seen)
@@ -151,7 +170,15 @@ pub fn check_case(c: &Case, rep: &mut Report) {
             rep.violation(format!("C02/{}/{}", c.api, p.sig()), format!("{} at {}:{}", p.msg, p.file, p.line), j);
         }
         Ok(s) => {
-            let allowed = c.allowed();
+            // what counts as offered is what the client wrote in its connection request: a selection is allowed only if it
+            // is also in that mask (the API argument and the wire must not disagree to the server's advantage)
+            let mut allowed = c.allowed();
+            if let Some(w) = s.wire_offered {
+                if allowed && ((c.value == 1 && w & 1 == 0) || (c.value == 2 && w & 2 == 0) || (c.value == 0 && w != 0)) {
+                    allowed = false;
+                    rep.hist("wire-mask-differs-from-api-mask");
+                }
+            }
             rep.hist(&format!("{}:{}", if allowed { "allowed" } else { "forbidden" }, match &s.connect { Ok(()) => "Ok".to_string(), Err(e) => e.clone() }));
             let tag = format!("{}/{}/offered={:#x}", c.api, c.reply_kind, c.offered);
             // plaintext protocol messages after the request although transport security was asked for
@@ -255,6 +282,11 @@ pub fn make_case(class: u64, idx: u64, seed: u64) -> Case {
             let flags = *r.pick(&[0u8, 0x01, 0x02, 0x04, 0x08, 0x10, 0x0f, 0x1f, 0x80, 0xff]);
             Case { api, offered, with_auth: r.chance(3, 4), check_certificate: r.chance(1, 4), options: r.below(16) as u8, identity: 2, reply_kind: "response", neg_type: 2, flags, value, class: "crossed-parameters" }
         }
+        6 => {
+            // the link is already under (unverified) TLS when the negotiation starts; certificate checking is requested
+            let sel = 1 + (idx % 2) as u32;
+            Case { api: "x224", offered: *r.pick(&[1u32, 2, 3]) | sel, with_auth: true, check_certificate: true, options: r.below(4) as u8, identity: (idx / 2 % 5) as usize, reply_kind: "response", neg_type: 2, flags: *r.pick(&[0u8, 8, 0x1f]), value: sel, class: "pre-secured-link" }
+        }
         _ => {
             // certificate checking with every identity, allowed selections
             let sel = 1 + (idx % 2) as u32;
@@ -285,7 +317,7 @@ pub fn run(cfg: &Cfg) -> Report {
         sequence_case(&mut rep);
         total.merge(rep);
     }
-    let plan: Vec<(u64, u64)> = vec![(0, 4096), (1, 16384), (2, 2048), (3, cfg.n(2_000, 400_000)), (4, cfg.n(1600, 160_000)), (5, cfg.n(8_000, 400_000))];
+    let plan: Vec<(u64, u64)> = vec![(0, 4096), (1, 16384), (2, 2048), (3, cfg.n(2_000, 400_000)), (4, cfg.n(1600, 160_000)), (5, cfg.n(8_000, 400_000)), (6, cfg.n(300, 20_000))];
     for (class, n) in plan {
         if !cfg.wants(class) {
             continue;
